@@ -39,6 +39,21 @@ var validLeaves = []leafT{
 	{"truncate", "type: truncate\nkey: log\nmaxLen: 180\nsuffix: ' ... (cut)'\n"},
 	{"truncate-1", "type: truncate\nkey: log\nmaxLen: 1\nsuffix: '~'\n"},
 	{"unescape", "type: unescape\nkey: log\n"},
+	// "addFields: could cause high CPU & mem when field values are huge" (sample comment): a value may reference the same
+	// large field more than once, and several fields may copy it
+	{"addFields-amplify", "type: addFields\nfields:\n  log: $log$log$log\n"},
+	{"addFields-copies", "type: addFields\nfields:\n  class: $log\n  task: $log\n"},
+}
+
+// amplifiers: transformation lists that let a record within the input limits grow (x2 is the size of the Fluentd
+// serializer buffer, so the menu goes from below to well above it)
+var amplifiers = []struct{ name, yaml string }{
+	{"copy-1", "- type: addFields\n  fields:\n    class: $log\n"},
+	{"copies-2", "- type: addFields\n  fields:\n    class: $log\n    task: $log\n"},
+	{"template-2x", "- type: addFields\n  fields:\n    log: $log$log\n"},
+	{"template-3x", "- type: addFields\n  fields:\n    log: $log$log$log\n"},
+	{"chain-4x", "- type: addFields\n  fields:\n    log: $log$log\n- type: addFields\n  fields:\n    log: $log$log\n"},
+	{"env-copy", "- type: addFields\n  fields:\n    host: $log\n    app: $log\n"},
 }
 
 var validMatches = []string{
@@ -183,4 +198,33 @@ func enumerateValid(thorough bool, want func(id string) bool, emit func(v validC
 			})
 		}
 	}
+	// two outputs in one pipeline (they share the pipeline's metric creator, the record's reference count and the
+	// transformed record): every ordered pair of outputs, the same one twice included
+	for oi, o := range orchs {
+		if !thorough && oi >= 2 {
+			break
+		}
+		for _, a := range outs {
+			for _, b := range outs {
+				if !thorough && !(twoOutMenu[a.name] && twoOutMenu[b.name]) {
+					continue
+				}
+				o, a, b := o, a, b
+				out("two-out/"+o.name+"/"+a.name+"+"+b.name, func() string {
+					return skeleton(parts{orchestration: o.yaml, metricKeys: o.metricKeys, output: a.yaml, moreOutputs: []string{b.yaml}})
+				})
+			}
+		}
+	}
+	// amplification: every amplifier in front of every output
+	for _, a := range amplifiers {
+		for _, u := range outs {
+			a, u := a, u
+			out("amplify/"+a.name+"/"+u.name, func() string {
+				return skeleton(parts{transforms: a.yaml, output: u.yaml})
+			})
+		}
+	}
 }
+
+var twoOutMenu = map[string]bool{"datadog": true, "fluentd-Forward": true, "fluentd-PackedForward": true, "fluentd-CompressedPackedForward-inline-unescape": true}
